@@ -1,10 +1,13 @@
 #!/bin/bash
-# Re-run every round-5 seed (made on top of a stored refactoring) against the current /verif: own check + those that fired before.
+# Re-run every seed that was made on top of a stored refactoring (rounds 5 and 7: seeded/*-d, seeded/*-e) against the
+# current /verif: own check + those that fired before.  Scratch trees only; /repo is not touched.
 cd /verif
-for d in seeded/*-d/; do
+for d in seeded/*-d/ seeded/*-e/; do
+  [ -f "$d/meta.json" ] || continue
   n=$(basename $d); pid=$(python3 -c "import json;print(json.load(open('$d/meta.json'))['property'])")
+  base=$(python3 -c "import json,re;print(re.search(r'benign/([^/]+)/', json.load(open('$d/meta.json'))['base']).group(1))")
   prev=$(python3 -c "import json;print(','.join(sorted(set(json.load(open('$d/meta.json')).get('detected_by',{}))|{'$pid'})))")
-  /venv/bin/python tools/seed5_intake.py $n /nonexistent $pid --base ${pid}-r --checks $prev --no-copy 2>&1 | python3 -c "
+  /venv/bin/python tools/seed5_intake.py $n /nonexistent $pid --base $base --checks $prev --no-copy 2>&1 | python3 -c "
 import sys,json
 d=json.load(sys.stdin); print(d['name'], 'confirmed=',d['confirmed'], 'detected_by=', {k:v['rules'] for k,v in d['detected_by'].items()}, 'errors=', list(d['analysis_errors']))"
 done
